@@ -33,7 +33,7 @@ class Scope:
 class Gen:
     def __init__(self, rng, opts=None):
         self.r = rng
-        self.o = {"floats": False, "closures": True, "arrays": True, "errors": 0.06, "shadow": 0.25,
+        self.o = {"floats": True, "closures": True, "arrays": True, "errors": 0.06, "shadow": 0.25,
                   "max_stmts": 14, "max_depth": 3, "decorators": 0.15}
         if opts:
             self.o.update(opts)
@@ -124,6 +124,10 @@ class Gen:
             if c < 0.65:
                 op = self.pick(["==", "!=", "<", "<=", ">", ">="])
                 return f"({self.expr(sc, 'int', d + 1)} {op} {self.expr(sc, 'int', d + 1)})"
+            if c < 0.72 and self.o["floats"]:
+                self.features.add("float")
+                op = self.pick(["==", "!=", "<", "<=", ">", ">="])
+                return f"({self.expr(sc, 'flt', d + 1)} {op} {self.expr(sc, 'flt', d + 1)})"
             if c < 0.85:
                 op = self.pick(["and", "or"])
                 a, b = self.expr(sc, "bool", d + 1), self.expr(sc, "bool", d + 1)
@@ -134,6 +138,28 @@ class Gen:
             if c < 0.93:
                 return f"(not {self.expr(sc, 'bool', d + 1)})"
             return f"({self.expr(sc, 'str', d + 1)} == {self.expr(sc, 'str', d + 1)})"
+        if ty == "flt":
+            vs = self.vars_of(sc, "flt")
+            c = r.random()
+            if d >= self.o["max_depth"] or c < 0.35:
+                if vs and self.chance(0.6):
+                    return self.pick(vs)
+                v = self.pick(["0.5", "1.5", "2.0", "0.25", "3.75", "10.0", "0.1", "100.5", "(-0.5)", "(-2.25)", "1e3", "0.0"])
+                return v
+            if c < 0.8:
+                op = self.pick(["+", "-", "*", "/"])
+                a = self.expr(sc, "flt", d + 1)
+                b = self.expr(sc, "flt", d + 1) if op != "/" else self.pick(["2.0", "4.0", "0.5", "(-8.0)", "3.0"])
+                return f"({a} {op} {b})"
+            if c < 0.95:
+                self.features.add("int-float-promotion")
+                op = self.pick(["+", "-", "*"])
+                # float on the LEFT only: `int op float` is typed as int by inference and then
+                # misread by typed integer opcodes when nested (known finding KF-C02-1 / C06)
+                # ... and an int LITERAL only: a float-typed op fed an int from an untyped parameter is
+                # the other half of the same known typed-fast-path defect
+                return f"({self.expr(sc, 'flt', d + 1)} {op} {self.int_lit()})"
+            return f"(-{self.expr(sc, 'flt', d + 1)})"
         if ty == "str":
             vs = self.vars_of(sc, "str")
             c = r.random()
@@ -168,9 +194,12 @@ class Gen:
                 pf = [n for n, (p2, r2) in self.funcs.items() if r2 == "int" and not p2 and n != f]
                 if pf:
                     self.features.add("effect-arg")
-                    args.append(f"{self.pick(pf)}()")
+                    args.append(f"{self.pick(pf)}()" if self.chance(0.6) else f"({self.pick(pf)}())")
                     continue
             args.append(self.expr(sc, t, d + 1))
+        if self.chance(0.25):
+            self.features.add("paren-arg")
+            args = [f"({a})" for a in args]
         return f"{f}({', '.join(args)})"
 
     # ---------------------------------------------------------------- statements
@@ -187,7 +216,7 @@ class Gen:
         c = r.random()
         out = []
         if c < 0.22:
-            ty = self.pick(["int", "int", "int", "bool", "str"])
+            ty = self.pick(["int", "int", "int", "bool", "str"] + (["flt"] if self.o["floats"] else []))
             mut = self.chance(0.45)
             n = self.fresh_name(sc, ty=ty)
             e = self.expr(sc, ty)
@@ -196,13 +225,25 @@ class Gen:
                 self.features.add("const-let")
             sc.vars[n] = (ty, mut)
             out.append(f"{p}let {'mut ' if mut else ''}{n} = {e}")
+        elif c < 0.245:
+            fs = [n for n, (pt, rt) in self.funcs.items() if rt == "int" and not pt]
+            if fs:
+                self.features.add("unused-let-effect")
+                n = self.fresh_name(sc, allow_shadow=False)
+                sc.vars[n] = ("unused", False)
+                f = self.pick(fs)
+                out.append(f"{p}let {n} = " + self.pick([f'"k={{{f}()}}"', f'"{{{f}()}}"', f"{f}() + 1", f"[{f}(), 2]", f"(if true {{ {f}() }} else {{ 0 }})"]))
+            else:
+                out.append(f"{p}println({self.expr(sc, 'int')})")
         elif c < 0.36:
-            for ty in r.sample(["int", "str", "bool"], 3):
+            for ty in r.sample(["int", "str", "bool"] + (["flt"] if self.o["floats"] else []), 4 if self.o["floats"] else 3):
                 vs = self.vars_of(sc, ty, mutable=True)
                 if vs:
                     v = self.pick(vs)
                     if ty == "int" and self.chance(0.5):
                         out.append(f"{p}{v} {self.pick(['+=', '-=', '*='])} {self.expr(sc, 'int', 1)}" if self.chance(0.7) else f"{p}{v}{self.pick(['++', '--'])}")
+                    elif ty == "flt" and self.chance(0.5):
+                        out.append(f"{p}{v} {self.pick(['+=', '-=', '*='])} {self.expr(sc, 'flt', 2)}")
                     elif ty == "str" and self.chance(0.5):
                         out.append(f"{p}{v} += {self.expr(sc, 'str', 1)}")
                     else:
@@ -227,19 +268,24 @@ class Gen:
             out += self.block(sc, r.randrange(1, 3), ind + 1, ret)
             out.append(f"{p}}}")
         elif c < 0.75 and ind < 3:
-            form = r.randrange(4)
             it = self.fresh_name(sc, ty="int")
             lo = r.randrange(-2, 4)
-            hi = lo + r.randrange(0, 5)
-            if form == 0:
-                hdr = f"for {it} in {lo}..{hi}"
-            elif form == 1:
-                hdr = f"for {it} in {lo}..={hi}"
-            elif form == 2:
-                hdr = f"for {it} in {lo}..{hi + 3} step {r.randrange(1, 4)}"
+            n_it = r.randrange(0, 5)
+            st = r.randrange(1, 4)
+            incl = self.chance(0.5)
+            exact = self.chance(0.6)          # the end value is hit exactly (matters for ..= )
+            up = self.chance(0.6)
+            span = n_it * st + (0 if exact else r.randrange(1, st + 1) % st)
+            a, b = (lo, lo + span) if up else (lo + span, lo)
+            dots = "..=" if incl else ".."
+            if up and st == 1 and self.chance(0.6):
+                hdr = f"for {it} in {a}{dots}{b}"
             else:
-                hdr = f"for {it} in {hi}..{lo} step -{r.randrange(1, 3)}"
-                self.features.add("neg-step")
+                hdr = f"for {it} in {a}{dots}{b} step {st if up else -st}"
+                if not up:
+                    self.features.add("neg-step")
+            if incl:
+                self.features.add("inclusive-range")
             out.append(f"{p}{hdr} {{")
             inner = Scope(sc)
             inner.vars[it] = ("int", False)
@@ -288,11 +334,13 @@ class Gen:
         elif c < 0.90 and self.o["closures"] and ind < 2:
             # closure sharing a captured variable by reference
             cv = self.fresh_name(sc, allow_shadow=False)
-            sc.vars[cv] = ("int", True)
+            # the captured counter is not offered to other expressions: `cv == f()` would depend on
+            # operand evaluation order, which the language spec leaves open (the VM reads a local
+            # operand when the operator executes, i.e. after the call)
+            sc.vars[cv] = ("captured", True)
             fnm = self.fresh_name(sc, allow_shadow=False)
             out.append(f"{p}let mut {cv} = {self.int_lit()}")
             out.append(f"{p}let {fnm} = fn() {{ {cv} += {r.randrange(1, 4)}; return {cv} }}")
-            sc.vars[cv] = ("int", True)
             sc.vars[fnm] = ("fn0", False)
             self.features.add("closure")
             out.append(f"{p}println({fnm}() + {fnm}())")
@@ -311,7 +359,7 @@ class Gen:
 
     def function(self, sc):
         self.fn_count += 1
-        kind = self.r.randrange(5)
+        kind = self.r.randrange(7)
         name = f"f{self.fn_count}"
         deco = ""
         if self.chance(self.o["decorators"]):
@@ -332,6 +380,45 @@ class Gen:
             out.append("}")
             self.funcs[name] = (["small", "int"], "int")
             self.features.add("recursion")
+        elif kind == 5:         # closures made in a loop inside a function, capturing several block locals
+            self.features.add("closure-loop")
+            n_it = self.r.randrange(2, 4)
+            order = self.r.randrange(3)
+            body = {0: "return a + b * 1000", 1: "return b * 1000 + a", 2: "return b - a + c"}[order]
+            out.append(f"fn {name}() {{")
+            out.append("    let fs = Vec[fn() { return 0 }]")
+            out.append(f"    for i in 0..{n_it} {{")
+            if self.chance(0.5):
+                out.append("        let tmp = i * 2")
+                out.append("        print(tmp)")
+            out.append("        let a = i + 1")
+            out.append("        let b = i * 10")
+            out.append("        let c = 7")
+            out.append(f"        fs.push(fn() {{ {body} }})")
+            if self.chance(0.4):
+                out.append("        if i == 1 { continue }")
+            out.append("    }")
+            out.append("    let mut total = 0")
+            out.append("    for f in fs { total = total * 3 + f() }")
+            out.append("    return total")
+            out.append("}")
+            self.funcs[name] = ([], "int")
+        elif kind == 6:         # a short-lived local dies, the captured counter reuses its register
+            self.features.add("closure-reuse")
+            out.append(f"fn {name}() {{")
+            if self.chance(0.7):
+                out.append(f"    let t0 = {self.int_lit()}")
+                out.append("    print(t0)")
+            out.append("    let mut count = 0")
+            out.append(f"    let inc = fn() {{ count += {self.r.randrange(1, 4)}; return count }}")
+            out.append(f"    let other = {self.r.randrange(10, 60)}")
+            if self.chance(0.5):
+                out.append("    let more = other * 2")
+                out.append("    print(more)")
+            out.append("    print(inc() + inc())")
+            out.append("    return other * 100 + count")
+            out.append("}")
+            self.funcs[name] = ([], "int")
         elif kind == 3:         # single-expression function over parameters (inliner bait)
             np_ = self.r.randrange(1, 4)
             ps = self.r.sample(["a", "b", "c", "x", "n"], np_)
